@@ -652,6 +652,12 @@ def extra_checks(rng, tier, workdir):
                 return
         pairs.extend((to_val(c), to_val(uncanon(r))) for c, r in zip(cases, res))
     mism, errors = coqrun.run_cases(workdir, 'PV.Run.C07_run', pairs, shard_size=300, prefix='seedcases')
+    for attempt in range(2):
+        if not errors:
+            break
+        # a shard that produced no verdict (coqc killed under memory pressure, timeout): evaluate again, fewer at a time
+        mism, errors = coqrun.run_cases(workdir, 'PV.Run.C07_run', pairs, shard_size=300, jobs=4,
+                                        prefix=f'seedcases_retry{attempt}')
     _EXTRA['child_results_compared_in_coq'] = len(pairs)
     if errors:
         yield ('seed:coq-shard-failed', 'could not evaluate the model on child results', errors[0][1][-400:], None)
